@@ -172,6 +172,9 @@ func check(c Case) error {
 				if c.Kind == "goldengate" {
 					sub = subGoldenGate
 				}
+				if abortSub != nil {
+					sub = abortSub
+				}
 				vk.AbortCase(sub, c, vk.Errf("%s did not return within 30 s (GOMAXPROCS %d, repetition %d)", c.Kind, p, rep))
 			}
 			if err != nil {
@@ -331,13 +334,19 @@ type design struct {
 	alternativeCount int
 }
 
-func drawDesign(t *rapid.T, h int, maxRings int) design {
-	k := rapid.IntRange(1, 6).Draw(t, "junctions")
+// drawDesign draws a design; forced, when not nil, fixes the number of junctions and of alternatives per slot.
+func drawDesign(t *rapid.T, h int, maxRings int, forced ...int) design {
+	k := len(forced)
+	if k == 0 {
+		k = rapid.IntRange(1, 6).Draw(t, "junctions")
+	}
 	os := overhangs(t, k+2, h) // two spare overhangs for decoys
 	d := design{junctions: os[:k], alternativeCount: 1}
 	for j := 0; j < k; j++ {
-		alts := rapid.IntRange(1, 3).Draw(t, fmt.Sprintf("slot%d_alternatives", j))
-		if d.alternativeCount*alts > maxRings {
+		var alts int
+		if len(forced) > 0 {
+			alts = forced[j]
+		} else if alts = rapid.IntRange(1, 3).Draw(t, fmt.Sprintf("slot%d_alternatives", j)); d.alternativeCount*alts > maxRings {
 			alts = 1
 		}
 		d.alternativeCount *= alts
@@ -380,8 +389,10 @@ func seqInts(n int) []int {
 	return x
 }
 
-func genLigate(t *rapid.T) Case {
-	d := drawDesign(t, rapid.SampledFrom([]int{4, 4, 3, 5}).Draw(t, "overhang_len"), vk.Pick(12, 27))
+func genLigate(t *rapid.T) Case { return genLigateFor(t) }
+
+func genLigateFor(t *rapid.T, forced ...int) Case {
+	d := drawDesign(t, rapid.SampledFrom([]int{4, 4, 3, 5}).Draw(t, "overhang_len"), vk.Pick(12, 27), forced...)
 	c := Case{Kind: "ligate", Decoys: d.decoys}
 	for i, f := range d.frags {
 		if rapid.IntRange(0, 3).Draw(t, fmt.Sprintf("frag%d_flipped", i)) == 0 {
@@ -395,10 +406,28 @@ func genLigate(t *rapid.T) Case {
 	return c
 }
 
-func genGoldenGate(t *rapid.T) Case {
+func genGoldenGate(t *rapid.T) Case { return genGoldenGateFor(t) }
+
+// genCorners: the corners of the design space that the capped generators above do not reach - every
+// slot with the maximum of three alternatives (729 plasmids from 18 parts), and its neighbours. One
+// schedule (all cores), two input orders.
+func genCorners(t *rapid.T) Case {
+	forced := rapid.SampledFrom([][]int{{3, 3, 3, 3, 3, 3}, {3, 3, 3, 3, 3, 3}, {3, 3, 3, 3, 3, 1}, {2, 3, 3, 2, 3, 3}, {3, 3, 3, 3, 3}, {2, 2, 2, 2, 2, 2}}).Draw(t, "corner")
+	var c Case
+	if rapid.Bool().Draw(t, "through_goldengate") {
+		c = genGoldenGateFor(t, forced...)
+	} else {
+		c = genLigateFor(t, forced...)
+	}
+	c.Procs = []int{rapid.SampledFrom([]int{16, 16, 1, 2}).Draw(t, "procs")}
+	c.Reps = 2
+	return c
+}
+
+func genGoldenGateFor(t *rapid.T, forced ...int) Case {
 	name := rapid.SampledFrom([]string{"BsaI", "BbsI", "BtgZI"}).Draw(t, "enzyme")
 	e := refclone.BuiltIn[name]
-	d := drawDesign(t, e.OverhangLen, vk.Pick(12, 27))
+	d := drawDesign(t, e.OverhangLen, vk.Pick(12, 27), forced...)
 	c := Case{Kind: "goldengate", Enzyme: name, Decoys: d.decoys}
 	for i, f := range d.frags {
 		pad := func(nm string) string { return word(t, fmt.Sprintf("part%d_%s", i, nm), e.Skip, "ACGT") }
@@ -468,16 +497,21 @@ func genTermination(t *rapid.T) Case {
 	return c
 }
 
-var subLigate, subGoldenGate, subTermination *vk.Sub[Case]
+var subLigate, subGoldenGate, subTermination, subCorners *vk.Sub[Case]
+
+// abortSub names the sub-check under which a runaway case is reported (set by the sub-checks that share a case kind).
+var abortSub *vk.Sub[Case]
 
 func init() {
 	subLigate = vk.Register(&vk.Sub[Case]{Name: "ligate", Gen: genLigate, Check: check, NonTrivial: nonTrivial, Labels: labels, Sample: sample, PreRecord: true})
 	subGoldenGate = vk.Register(&vk.Sub[Case]{Name: "goldengate", Gen: genGoldenGate, Check: check, NonTrivial: nonTrivial, Labels: labels, Sample: sample, PreRecord: true})
+	subCorners = vk.Register(&vk.Sub[Case]{Name: "corners", Gen: genCorners, Check: check, NonTrivial: nonTrivial, Labels: labels, Sample: sample, PreRecord: true})
 	subTermination = vk.Register(&vk.Sub[Case]{Name: "termination", Gen: genTermination, Check: check, NonTrivial: nonTrivial, Labels: labels, Sample: sample})
 }
 
 func TestSub_ligate(t *testing.T)      { vk.RunRapid(t, subLigate) }
 func TestSub_goldengate(t *testing.T)  { vk.RunRapid(t, subGoldenGate) }
+func TestSub_corners(t *testing.T)     { abortSub = subCorners; vk.RunRapid(t, subCorners) }
 func TestSub_termination(t *testing.T) { vk.RunRapid(t, subTermination) }
 
 func TestReplay(t *testing.T) { vk.Replay(t) }
